@@ -94,6 +94,28 @@ def run_case(case, ctx):
                     ids = [dsops.ex_id_of(e) for e in got]
                     sequences.append(((fp, hname), ids))
                     ctx.count("passes")
+            if iface == "tfdata":
+                # the natural "pass" of tf.data: iterate the SAME returned
+                # dataset object again (what Keras does every epoch)
+                opts = {"repeat": False, "shuffle": 0}
+                if fps[0] is not None:
+                    opts["file_parallelism"] = fps[0]
+                ok, obj = oracles.guarded(
+                    ctx, "deterministic", ("iteration-raised", iface),
+                    f"{iface} split={split} re-iterated object",
+                    lambda: dsops.tfdata_object(b.h.ds, split, **opts))
+                if ok:
+                    for again in ("object-pass-1", "object-pass-2"):
+                        ok2, got = oracles.guarded(
+                            ctx, "deterministic",
+                            ("iteration-raised", iface),
+                            f"{iface} split={split} {again}",
+                            lambda: dsops.iterate_tfdata_object(*obj))
+                        if ok2:
+                            sequences.append(
+                                ((fps[0], again),
+                                 [dsops.ex_id_of(e) for e in got]))
+                            ctx.count("passes")
             ref_cfg, ref = sequences[0]
             for cfg, ids in sequences[1:]:
                 if ids != ref:
